@@ -33,7 +33,8 @@ fn addr_pool() -> (Vec<SocketAddr>, Vec<SocketAddr>) {
         .iter()
         .map(|s| s.parse().unwrap())
         .collect();
-    let v6: Vec<SocketAddr> = ["[::1]:5678", "[fe80::1]:0", "[ffff:ffff:ffff:ffff:ffff:ffff:ffff:ffff]:65535", "[2001:db8::42]:3210"]
+    // incl. an IPv4-mapped and an IPv4-compatible IPv6 address: they are IPv6 entries and must come back as such
+    let v6: Vec<SocketAddr> = ["[::1]:5678", "[::ffff:1.2.3.4]:5678", "[ffff:ffff:ffff:ffff:ffff:ffff:ffff:ffff]:65535", "[::1.2.3.4]:80", "[fe80::1]:0", "[2001:db8::42]:3210"]
         .iter()
         .map(|s| s.parse().unwrap())
         .collect();
@@ -425,7 +426,9 @@ pub fn run(ctx: &Ctx) {
     for (pw, _) in &overl {
         pw_set.push(pw.clone());
     }
-    let frag: Vec<String> = ["B", "E", "G", "BODY", "E>1", "E>2", "E>3", "E>4", "B<1", "B<2", "B<3", "B<4", "x", "0", " ", ""]
+    // "\u{b2}" (superscript two), "\u{663}" (Arabic-Indic three), "\u{ff13}" (fullwidth three), "\u{bd}" (one half): numeric
+    // characters outside ASCII; "\u{e9}" a letter outside ASCII
+    let frag: Vec<String> = ["B", "E", "G", "BODY", "E>1", "E>2", "E>3", "E>4", "B<1", "B<2", "B<3", "B<4", "x", "0", " ", "", "\u{b2}", "\u{663}", "\u{ff13}\u{bd}", "\u{e9}"]
         .iter()
         .map(|s| s.to_string())
         .collect();
